@@ -74,6 +74,8 @@ structure St where
   rz : Kv.REnv := { mapSize := 0, chunk := 1 }
   /-- run `migrate`: records of the old environment directory (`none` = no such directory) -/
   old : Option (List (Bytes × Val)) := none
+  /-- run `shared`: digest of what the OTHER store handle of the environment holds -/
+  other : String := ""
 
 def parseDb (s : String) : Option Nat :=
   if s = "def" then some 0 else (nat? s).map (· + 1)
@@ -332,6 +334,9 @@ def handle (st : St) (args : List String) (impl : String) : St × Verdict :=
       let e := Kv.storeNewCrash prefixes { tbl := st.m.committed, old := st.old } c
       ({ st with m := { committed := e.tbl, stack := [] }, old := e.old }, .ok)
     | none => (st, .unknown)
+  -- run `shared`: the other handle's data must be what it wrote, whatever the migrating store does
+  | ["other_set", d] => ({ st with other := d }, .ok)
+  | ["other_obs"] => (st, cmpSpec st.other impl)
   | ["mig_olddir"] => (st, cmpSpec (if st.old.isSome then "present" else "gone") impl)
   | ["mig_size", tu, fu, c, mb] => match nat? tu, nat? fu, nat? c, nat? mb with
     | some tu, some fu, some c, some mb =>
